@@ -159,9 +159,9 @@ static Mat gen_monomial(Rng &rng, long n) {
     return from_rows(n, n, rows);
 }
 static void generate(Rng &rng, const Opts &o, std::vector<std::string> &lines) {
-    long N = o.cases > 0 ? o.cases : (o.thorough() ? 1500 : 300);
+    long N = o.cases > 0 ? o.cases : (o.thorough() ? 1200 : 120);
     for (long k = 0; k < N; ++k) {
-        long n = rng.range(1, o.thorough() ? 30 : 16);
+        long n = rng.range(1, o.thorough() ? 24 : 12);
         long fam = rng.range(0, 9); Mat A; bool spd = false, mono = false;
         if (fam <= 3) { A = gen_int_spd(rng, n); spd = true; } else if (fam <= 8) A = gen_int_nonsym(rng, n); else { A = gen_monomial(rng, n); mono = true; }
         if (!nonsingular(dense(A))) { A = gen_int_spd(rng, n); spd = true; mono = false; }
